@@ -43,6 +43,7 @@ def parseApi (ws : List String) : Option Api.Op :=
   | ["complete", s] => do some (.complete (← n? s))
   | ["sources", s] => do some (.sources (← n? s))
   | ["matrix", s] => do some (.matrix (← n? s))
+  | ["cwdump", s] => do some (.cwdump (← n? s))
   | _ => none
 
 def nat? (s : String) : Option Nat := s.toNat?
